@@ -31,6 +31,9 @@ def gfield(N, dims, starts, shape):
     return v
 
 
+MEM_CELLS = 2500    # whole-array comparison only when all ranks' arrays together have at most this many cells
+
+
 def impl_case(c):
     """c = (N, nprocs, layouts, pairs, seed): pairs = [(src_idx, dst_idx, use_buf, dtype)]"""
     import numpy as np
@@ -72,11 +75,15 @@ def impl_case(c):
                     got = got.real
                 else:
                     okc = True
-                out.append({'dest': [int(x) for x in got], 'cplx_ok': okc,
-                            'src_same': bool((src[:la.size] == before).all()),
-                            'srcblock': [int(x) for x in ga.reshape(-1)],
-                            'expect': [int(x) for x in gfield(N, lb.dims_order, lb.starts, lb.shape).reshape(-1)]})
-        return {'coords': [int(x) for x in h.mpiCoords], 'routes': routes, 'out': out}
+                rec = {'dest': [int(x) for x in got], 'cplx_ok': okc,
+                       'src_same': bool((src[:la.size] == before).all()),
+                       'srcblock': [int(x) for x in ga.reshape(-1)],
+                       'expect': [int(x) for x in gfield(N, lb.dims_order, lb.starts, lb.shape).reshape(-1)]}
+                if bs * nranks <= MEM_CELLS:
+                    # the complete arrays afterwards (real parts), for the whole-memory model (frame theorems)
+                    rec['mem'] = [[int(x) for x in np.real(arr)] if arr is not None else None for arr in (src, dst, buf)]
+                out.append(rec)
+        return {'coords': [int(x) for x in h.mpiCoords], 'routes': routes, 'out': out, 'bs': bs}
     R = MPI.run(nranks, work, seed=seed, timeout=90)
     if R.outcome != 'ok':
         return ('fail', R.outcome, R.detail[:400])
@@ -161,6 +168,33 @@ def run():
                                                             ' '.join(map(str, layouts[si])),
                                                             ' / '.join(' '.join(map(str, l)) for l in rt), bufs))
             mkeys.append((ci, pi_))
+    # whole-memory model: complete source / dest / buf arrays of every rank after the transpose (frame theorems
+    # c01_run_step_frame / c01_run_route_frame), and the certificate that every step stays inside bufferSize
+    flines, fkeys, eok_lines, eok_keys = [], [], [], []
+    for ci, (c, r) in enumerate(zip(cases, impl)):
+        N, nprocs, layouts, pairs, seed = c
+        if r[0] != 'ok':
+            continue
+        res = r[1]
+        routes = res[0]['routes']
+        bss = [res[rk]['bs'] for rk in range(len(res))]          # bufferSize is a per-process quantity
+        for pi_, (si, di, use_buf, dt) in enumerate(pairs):
+            if any('mem' not in res[rk]['out'][pi_] for rk in range(len(res))):
+                continue
+            rt = [] if si == di else [layouts[int(x[1:])] for x in routes['L%d' % si]['L%d' % di]]
+            head = '%s | %s | %s | %s' % (' '.join(map(str, N)), ' '.join(map(str, nprocs)), ' '.join(map(str, layouts[si])),
+                                          ' / '.join(' '.join(map(str, l)) for l in rt))
+            srcs = ' ; '.join(' '.join(map(str, res[rk]['out'][pi_]['srcblock'] + [-7] * (bss[rk] - len(res[rk]['out'][pi_]['srcblock']))))
+                              for rk in range(len(res)))
+            dsts = ' ; '.join(' '.join(['-8'] * bss[rk]) for rk in range(len(res)))
+            bufs = ' ; '.join(' '.join(['-9'] * bss[rk]) for rk in range(len(res)))
+            flines.append('mtr %s | %d 0 ; %s ;; %s ;; %s' % (head, 1 if use_buf else 0, srcs, dsts, bufs))
+            fkeys.append((ci, pi_))
+            if rt:
+                eok_lines.append('mok %s | %s' % (head, ' '.join(map(str, bss))))
+                eok_keys.append((ci, pi_))
+    fres = dict(zip(fkeys, core.model_parallel(flines)))
+    eres = dict(zip(eok_keys, core.model_parallel(eok_lines)))
     mres = dict(zip(mkeys, core.model_parallel(mlines)))
     rres = core.model_parallel(rok_lines)
     for (ci, a, b, route), ok in zip(rok_keys, rres):
@@ -211,6 +245,37 @@ def run():
                                   % (N, nprocs, layouts[si], layouts[di], m[:80]),
                                   {'kind': 'correspondence', 'theorem': 'c01_route_correct / run_route', 'case': [N, nprocs, layouts, [[si, di, use_buf, dt]], seed]},
                                   no_input=True)
+    frame_cmp = 0
+    for (ci, pi_), m in fres.items():
+        N, nprocs, layouts, pairs, seed = cases[ci]
+        si, di, use_buf, dt = pairs[pi_]
+        res = impl[ci][1]
+        if any(res[rk]['out'][pi_]['dest'] != res[rk]['out'][pi_]['expect'] for rk in range(len(res))):
+            continue            # reported above as wrong data
+        frame_cmp += 1
+        groups = [g.strip() for g in m.split(';;')]
+        for gi, nm in enumerate(('source', 'dest', 'buf')):
+            if nm == 'buf' and not use_buf:
+                continue
+            got = ' ; '.join(' '.join(map(str, res[rk]['out'][pi_]['mem'][gi])) for rk in range(len(res)))
+            if len(groups) != 3 or groups[gi].split() != got.split():
+                chk.cov['disagreements_checked'] += 1
+                chk.violation('layout.LayoutHandler.transpose:%s-array-differs-from-memory-model' % nm,
+                              'N=%r nprocs=%r %r -> %r buffer=%s: the %s arrays after the transpose are %s, the whole-memory model '
+                              '(mh_transpose) gives %s' % (N, nprocs, layouts[si], layouts[di], use_buf, nm, got[:200], (groups[gi] if len(groups) == 3 else m)[:200]),
+                              {'kind': 'correspondence', 'theorem': 'c01_run_step_frame / c01_run_route_frame (mh_transpose)',
+                               'case': [N, nprocs, layouts, [[si, di, use_buf, dt]], seed]}, no_input=True)
+                break
+    for (ci, pi_), ok in eres.items():
+        chk.cov['certificates_checked'] += 1
+        if ok != '1':
+            N, nprocs, layouts, pairs, seed = cases[ci]
+            si, di, use_buf, dt = pairs[pi_]
+            chk.violation('layout.LayoutHandler:step-extent-exceeds-bufferSize',
+                          'N=%r nprocs=%r %r -> %r: a step of the route needs more cells than bufferSize=%r (mh_route_ok false)'
+                          % (N, nprocs, layouts[si], layouts[di], [x['bs'] for x in impl[ci][1]]),
+                          {'kind': 'certificate', 'theorem': 'c01_run_route_frame (mh_route_ok with E = bufferSize)',
+                           'case': [N, nprocs, layouts, [[si, di, use_buf, dt]], seed]}, no_input=True)
     # cross-check of the extraction on two small cases inside Coq
     vals = core.coq_eval(['run_step nat 99 [2; 3] [2] [0; 1] [1; 0] 1 [[0; 1; 2]; [3; 4; 5]]',
                           'run_step nat 99 [3; 2] [1; 2] [0; 1] [1; 0] 1 [[0; 1; 2; 3; 4; 5]; [0; 1; 2; 3; 4; 5]]'],
@@ -220,15 +285,16 @@ def run():
         if v.replace('[', '').replace(']', ' ;').replace(';', ' ').split() != m.replace(';', ' ').split():
             raise core.BrokenCheck('extraction and vm_compute disagree: %s vs %s' % (v, m))
     chk.assumptions += ['numpy view/reshape/transpose/slice assignment semantics (read into gather form in TransposeStep.v)',
-                        'simulated MPI Alltoall: equal chunks by rank', 'write sets of the single steps (source untouched when a buffer '
-                        'is given) are exercised on every case, not proved']
-    return chk.finish(proof,
+                        'simulated MPI Alltoall: equal chunks by rank',
+                        'the whole-memory model composes pack / Alltoall / unpack with the same array arguments as _transpose and '
+                        '_transpose_source_intact; the complete source / dest / buf arrays are compared with it on every case small enough']
+    return chk.finish(proof, extra={'whole_array_comparisons': frame_cmp},
                       rule='corpus (incl. the repaired [4,5,7,8]/(1,3) case) + seeded random accepted handler configurations of rank 2-4, '
                            'extents 1-%d, <=%d ranks, 2-5 layouts; every ordered pair (capped in quick), buffer or not, float/complex/int; '
                            'non-trivial = different layouts on more than one rank; distinct = (shape, grid, source, dest, buffer, dtype)'
                            % (6 if chk.tier == 'quick' else 9, 6 if chk.tier == 'quick' else 12),
                       uncovered=['the routes themselves are taken from the handler (certificate validated by route_ok_b); that every pair the handler connects directly is acceptable is proved (c01_compatible_step_ok)',
-                                 'frame of a single step (which cells of source/dest/buf are written) is tested, not proved',
+                                 'that the extent of every step is at most bufferSize is checked per route (mh_route_ok with E = bufferSize), not proved',
                                  'fast path (whole-buffer transpose) = per-rank unpack: covered by the differential strata div/eq, not a separate theorem'])
 
 
